@@ -293,6 +293,16 @@ func (k *c14run) check(o obs, want *cond, slug, variant string) {
 		"server_flags": k.srv.args, "state": slug, "variant": variant, "setup": append([]obs{}, k.steps...),
 		"request": o.Req, "observed": o, "required": condName,
 	}
+	if o.TransportErr != "" && want != nil && (o.Transport == "client" || o.Transport == "grpc") && o.TransportErr != "Unavailable" {
+		// the server is up and answered the set-up requests: the required condition reached the caller as a
+		// bare transport status, its specific code is lost (Unavailable = connection trouble: not judged)
+		k.res.Count("observed-code:" + o.Transport + ":" + o.Rpc + ":transport:" + o.TransportErr)
+		k.res.Find(common.Finding{Kind: "violation", Property: "C14",
+			Signature: fmt.Sprintf("stack:code:%s:%s:%s:transport-status", o.Transport, o.Rpc, slug),
+			What:      fmt.Sprintf("%s over %s in state %q: the caller gets the transport status %s (%s) instead of the required %s", o.Rpc, o.Transport, slug, o.TransportErr, o.Msg, want.name),
+			Replay:    replay})
+		return
+	}
 	if o.TransportErr != "" {
 		k.res.Count("inconclusive:transport-error")
 		k.res.Note("C14 %s %s %s/%s: transport-level failure %q (%s): no application response to judge", o.Transport, o.Rpc, slug, variant, o.TransportErr, o.Msg)
